@@ -12,12 +12,12 @@ ID = "C05"
 TITLE = "mGH estimates always bracket the true modified Gromov-Hausdorff distance"
 CASE_TIMEOUT_S = 120.0
 PLAN = {
-    "quick": {"runs": 4800, "chunk": 40, "shrink_s": 30.0},
+    "quick": {"runs": 32000, "chunk": 100, "shrink_s": 30.0},
     "thorough": {"budget_s": 600.0, "chunk": 25, "shrink_s": 60.0},
 }
 RULE = ("case = pair of connected simple graphs (paths, cycles, stars, random trees, cliques minus edges, G(n,p) over a "
-        "spanning tree, relabelled copies, copy + pendant vertex, copy with one edge toggled; 1..7 vertices quick, "
-        "..9 with exact reference and ..30 size-free in thorough) x mapping_sample_size_order from a set including "
+        "spanning tree, relabelled copies, copy + pendant vertex, copy with one edge toggled; 1..10 vertices with exact "
+        "reference, ..30 size-free in thorough) x mapping_sample_size_order from a set including "
         "[0,0] (one mapping), the default and negative exponents; evaluated k=2..4 times, each with the NumPy global "
         "RNG seen by the heuristic replaced by a scheduler-owned generator (modes uniform / identity / reverse / "
         "constant / sticky) or the real MT19937 under a drawn seed. Oracle: exact 2*mGH by branch-and-bound over all "
@@ -34,15 +34,20 @@ REAL_COMPONENTS = ["persim.gromov_hausdorff (working tree)", "scipy.sparse.csgra
 STUB_COMPONENTS = ["np.random as seen by persim.gromov_hausdorff -> SimRandom (all modes except 'real')"]
 
 
+def reset_world():
+    from sim import world
+    world.reload_persim(("persim.gromov_hausdorff",))
+
+
 def gen_case(rng, tier):
     r = rng.random()
     big = False
-    if r < 0.45:
+    if r < 0.3:
         max_n = 5
-    elif r < 0.9 or tier == "quick":
+    elif r < 0.55:
         max_n = 7
-    elif r < 0.97:
-        max_n = 9
+    elif r < 0.97 or tier == "quick":
+        max_n = 10          # sparse pairs of this size are where the curvature bound has to work
     else:
         max_n = 30
         big = True
